@@ -312,3 +312,28 @@ func (r *Recorder) End(i int, class, out string, keys []string, err error) {
 		}
 	}
 }
+
+// WaitReached blocks until the waiter is parked at the gate (or d passed).
+func (g *Gate) WaitReached(d time.Duration) bool {
+	deadline := time.Now().Add(d)
+	for time.Now().Before(deadline) {
+		g.mu.Lock()
+		r := g.Reached
+		g.mu.Unlock()
+		if r {
+			return true
+		}
+		time.Sleep(200 * time.Microsecond)
+	}
+	return false
+}
+
+// Release opens the gate by hand.
+func (g *Gate) Release() {
+	g.mu.Lock()
+	if !g.Signalled && !g.TimedOut {
+		g.Signalled = true
+		close(g.ch)
+	}
+	g.mu.Unlock()
+}
